@@ -14,8 +14,12 @@ def bits(n):
 
 def run(rep, rng, tier, replay=None):
     extra = [replay["chosen"]["case"]] if replay and replay.get("chosen", {}).get("case") else []
+    # disconnected graphs (several components, each with its own loops): the loop count that sizes the Gaussian block must be
+    # the sum over the components
+    dfams = [f for f in G.FAMILIES if f[0] in ("two_tadpoles", "disconnected")]
+    extra += [SC.gen_sample_case(rng.fork(), emax=6, fams=dfams, connected=False) for _ in range(12 if tier == "quick" else 60)]
     got = SC.standard_run(rep, rng, tier, "C14", ["x_pre", "lambda", "q_vectors"], 1e-11, n_quick=70, n_thorough=500,
-                          nontrivial=lambda c: len(c["edges"]) >= 3, extra_cases=extra, emax=6 if tier == "quick" else 8)
+                          nontrivial=lambda c: len(c["edges"]) >= 3, extra_cases=extra, keep_mismatch=True, emax=6 if tier == "quick" else 8)
     longer, shorter, base = [], [], []
     for c, fi, m, o, timpl in got:
         E, D, L = len(c["edges"]), c["D"], c["L"]
@@ -25,7 +29,7 @@ def run(rep, rng, tier, replay=None):
         bad = []
         if o["dimension"] != dim or len(c["point"]) != dim:
             bad.append("get_dimension() = %s, 2E-1+DL+(DL mod 2) = %s" % (o["dimension"], dim))
-        if m["reads"] != dim or m["sector_reads"] != 2 * E - 2:
+        if m is not None and (m["reads"] != dim or m["sector_reads"] != 2 * E - 2):
             rep.violation("correspondence", "model reads %s coordinates (sector %s), dimension %s" % (m["reads"], m["sector_reads"], dim), case=c)
         xi_coords = {2 * k + 1 for k in range(E - 1)}
         edge_coords = {2 * k for k in range(E - 1)}
@@ -41,7 +45,9 @@ def run(rep, rng, tier, replay=None):
         if not gam or any(v != b2f(c["point"][lam_coord]) for v, t in gam):
             bad.append("the Gamma draw does not narrow exactly coordinate %d" % lam_coord)
         # Gaussian components: each depends on its own pair only
-        for nidx in range(D * L):
+        if len(md["q_vectors"]) != L or any(len(q) != D for q in md["q_vectors"]):
+            bad.append("%d Gaussian vectors are drawn for %d loops (D=%d): coordinates of the missing ones are never read" % (len(md["q_vectors"]), L, D))
+        for nidx in range(D * min(L, len(md["q_vectors"]))):
             t = bits(tset(md["q_vectors"][nidx // D][nidx % D][2]))
             mm = nidx // 2
             if t != [off + 2 * mm, off + 2 * mm + 1]:
